@@ -53,7 +53,7 @@ var statMutationsCmd = &cobra.Command{
 		}
 
 		al := <-aligns.Achan
-		if aligns.Err != nil {
+		if al == nil {
 			err = aligns.Err
 			io.LogError(err)
 			return
